@@ -129,9 +129,23 @@ class Scheduler:
         self.go[nxt].release()
         self.go[me].acquire()
 
+    def join_wait(self, tid):
+        """Thread.join() of a scheduled thread, called from another scheduled thread: blocks (in the
+        scheduler's sense) until that thread's body has finished; a thread waiting for a lock the
+        joiner holds therefore shows up as a deadlock."""
+        me = self.tid()
+        if me is None or not self.active or me == tid:
+            return
+        while not self.done[tid]:
+            self.blocked[me] = ("join", tid)
+            self.point("join-blocked")
+
     def finish(self, me):
         """thread `me` ends: hand the baton on (forced switch, a point with choices if >1 enabled)"""
         self.done[me] = True
+        for t in range(len(self.blocked)):
+            if self.blocked[t] == ("join", me):
+                self.blocked[t] = None
         en = self.enabled()
         if not en:
             if all(self.done):
